@@ -256,6 +256,17 @@ def run(ctx):
     specs = util.corpus(ctx.prop) + gen.gen_many_plants(ctx.seed, n, CFG, 'c06_')
     # start / shutdown ramp profiles; every second portfolio was set up before (same objects, other prices)
     prof = gen.gen_many_plants(ctx.seed, n // 2, dict(CFG, p_profile=1.0, freqs=['h', '2h', '30min'], T=(5, 9)), 'c06p_')
+    # minimum run / down times of at most one main time unit that span several steps, nothing else asking for start variables
+    sd = gen.gen_many_plants(ctx.seed, n // 4, dict(CFG, freqs=['15min', '30min'], units=['h'], T=(6, 10), p_profile=0.0, p_fuel=0.3), 'c06sd_')
+    for i_, sp in enumerate(sd):
+        for a in sp['assets']:
+            if a['kind'] in ('Plant', 'CHPAsset'):
+                a.pop('start_costs', None); a.pop('start_fuel', None)
+                a['min_runtime'] = [1, 0.5, 1][i_ % 3] if sp['grid']['freq'] == '15min' else 1
+                if i_ % 2:
+                    a['min_downtime'] = 1
+                a['time_already_running'] = 0; a['time_already_off'] = 2; a['last_dispatch'] = 0.0
+    prof += sd
     # a declared ramp of zero (output may not change while running)
     prof += gen.gen_many_plants(ctx.seed, n // 4, dict(CFG, p_ramp0=1.0, p_profile=0.3), 'c06r0_')
     # profiles given in another frequency than the grid's (interpolated / averaged: Ramp.v)
